@@ -1,4 +1,5 @@
 """Path context: decisions, path condition, obligations, fresh symbols."""
+import os
 import time
 import z3
 from .values import *
@@ -62,6 +63,36 @@ def exc_ancestors(name, clsinfo=None):
     return out
 
 
+_SYMS_CACHE = {}
+
+
+def term_symbols(t):
+    """names of the uninterpreted constants and functions occurring in t (cached per ast id)"""
+    key = t.get_id()
+    r = _SYMS_CACHE.get(key)
+    if r is not None:
+        return r[1]
+    out = set()
+    seen = set()
+    stack = [t]
+    while stack:
+        x = stack.pop()
+        i = x.get_id()
+        if i in seen:
+            continue
+        seen.add(i)
+        if z3.is_quantifier(x):
+            stack.append(x.body())
+            continue
+        if z3.is_app(x):
+            d = x.decl()
+            if d.kind() == z3.Z3_OP_UNINTERPRETED:
+                out.add(d.name())
+            stack.extend(x.children())
+    _SYMS_CACHE[key] = (t, frozenset(out))
+    return _SYMS_CACHE[key][1]
+
+
 class ObligationResult:
     __slots__ = ('label', 'status', 'model', 'time', 'backend', 'path', 'detail', 'size')
 
@@ -82,8 +113,8 @@ class Ctx:
         self.pos = 0
         self.trace = []                 # decisions actually taken on this run
         self.pc = []
-        self.solver = z3.Solver()
-        self.solver.set('timeout', TIMEOUT_MS)
+        self.last_solver = None
+        self.last_complete = True
         self.forks = []                 # new decision prefixes to explore
         self.results = []               # ObligationResult
         self.counter = 0
@@ -132,17 +163,53 @@ class Ctx:
         if z3.is_false(t):
             raise PathEnd()
         self.pc.append(t)
-        self.solver.add(t)
 
-    def _check(self, extra, rlimit):
+    def _relevant(self, extra):
+        """cone of influence: the conjuncts of the path condition that share (transitively) an uninterpreted
+        symbol with the query.  Dropping the others is sound for validity; a `sat` answer is re-confirmed
+        against the full path condition by the caller."""
+        want = set()
+        for e in extra:
+            want |= term_symbols(e)
+        if not want:
+            return list(self.pc), True
+        items = [(c, term_symbols(c)) for c in self.pc]
+        chosen = [False] * len(items)
+        changed = True
+        while changed:
+            changed = False
+            for i, (c, sy) in enumerate(items):
+                if not chosen[i] and (sy & want):
+                    chosen[i] = True
+                    want |= sy
+                    changed = True
+                elif not chosen[i] and not sy:
+                    chosen[i] = True       # closed formulas (e.g. literal false) always stay
+        sel = [c for (c, _), ch in zip(items, chosen) if ch]
+        return sel, len(sel) == len(items)
+
+    def _check(self, extra, rlimit, full=False):
         self.queries += 1
         t0 = time.time()
-        self.solver.set('rlimit', rlimit)
+        if full:
+            sel, complete = list(self.pc), True
+        else:
+            sel, complete = self._relevant(extra)
+        s = z3.Solver()
+        s.set('timeout', TIMEOUT_MS)
+        s.set('rlimit', rlimit)
+        for c in sel:
+            s.add(c)
         try:
-            r = self.solver.check(extra)
+            r = s.check(extra)
         except z3.Z3Exception:
             r = z3.unknown
-        self.solver_time += time.time() - t0
+        self.last_solver = s
+        self.last_complete = complete
+        dt = time.time() - t0
+        self.solver_time += dt
+        if dt > 2.0 and os.environ.get('PYVC_SLOW'):
+            print('SLOW %.1fs %s nconj=%d extra=%s' % (dt, r, len(sel), str(extra)[:300]), flush=True)
         return r
 
     def feasible(self, t):
@@ -231,13 +298,23 @@ class Ctx:
             self.results.append(ObligationResult(label, 'unsat', None, 0.0, 'simplify', list(self.trace), detail, 1))
             return
         r = self._check([z3.Not(g)], RLIMIT)
+        if r == z3.sat and not self.last_complete:
+            # confirm the refutation against the whole path condition
+            r2 = self._check([z3.Not(g)], RLIMIT, full=True)
+            if r2 == z3.unsat:
+                r = z3.unsat
+            elif r2 == z3.sat:
+                r = z3.sat
+            else:
+                self._check([z3.Not(g)], RLIMIT)      # keep the sliced model
+                detail = (detail + ' [counter-model of the relevant part of the path condition]').strip()
         dt = time.time() - t0
         size = len(g.sexpr())
         if r == z3.unsat:
             self.results.append(ObligationResult(label, 'unsat', None, dt, 'z3', list(self.trace), detail, size))
             self.assume(g)
         elif r == z3.sat:
-            m = self.solver.model()
+            m = self.last_solver.model()
             self.results.append(ObligationResult(label, 'sat', self.read_model(m), dt, 'z3', list(self.trace), detail, size))
             # keep going on this path under the assumption, so that one defect yields one report per clause
             try:
@@ -251,7 +328,7 @@ class Ctx:
                 self.assume(g)
             else:
                 self.results.append(ObligationResult(label, 'unknown', None, time.time() - t0, 'z3+cvc5', list(self.trace),
-                                                     detail + ' reason=' + str(self.solver.reason_unknown()), size))
+                                                     detail + ' reason=' + str(self.last_solver.reason_unknown()), size))
                 self.assume(g)
 
     def _cvc5_fallback(self, g):
@@ -300,8 +377,11 @@ def model_value(m, v, depth=0):
     if isinstance(v, PyDict):
         return {'dict': [[model_value(m, k, depth + 1), model_value(m, x, depth + 1)] for k, x in zip(v.keys, v.vals)]}
     if isinstance(v, SymSeq):
-        r = m.eval(v.t, model_completion=True)
-        return {'symseq': str(r)[:400], 'len': str(m.eval(z3.Length(v.t), model_completion=True))}
+        n = m.eval(v.n, model_completion=True)
+        nn = n.as_long() if z3.is_int_value(n) else 0
+        items = [model_value(m, Sym(z3.Select(v.arr, z3.IntVal(i)), v.elem.ty if v.elem.ty in ('int', 'bool', 'real', 'bytes', 'str') else 'int'), depth + 1)
+                 for i in range(min(nn, 24))]
+        return {'list_len': nn, 'items': items}
     if isinstance(v, SymMap):
         return {'symmap': str(m.eval(v.dom, model_completion=True))[:400], 'val': str(m.eval(v.val, model_completion=True))[:400]}
     if isinstance(v, (int, bool, str, type(None))):
